@@ -84,7 +84,9 @@ theorem braceName_some {rest name : Bytes} (h : braceName rest = some name) :
       · rename_i hcond
         injection h with h
         subst h
-        obtain ⟨hne, hlt⟩ := hcond
+        obtain ⟨hne, hdr⟩ := hcond
+        have hlt : (List.takeWhile notRBrace r).length < r.length := by
+          rw [Ne, List.drop_eq_nil_iff] at hdr; omega
         obtain ⟨x, t, hd, hx⟩ := takeWhile_length_lt_head hlt
         have hsplit := List.takeWhile_append_dropWhile (p := notRBrace) (l := r)
         rw [hd] at hsplit
@@ -113,7 +115,7 @@ theorem braceName_intro (name post : Bytes) (hne : name ≠ []) (hnb : ∀ b ∈
       List.takeWhile_cons_of_neg (by simp [notRBrace])]
     simp
   simp only [braceName, htw, if_true]
-  rw [if_pos ⟨hne, by simp⟩]
+  rw [if_pos ⟨hne, by rw [List.drop_left' rfl]; simp⟩]
 
 
 /-- Identifier: `[A-Za-z_][A-Za-z0-9_]*`. -/
